@@ -13,6 +13,7 @@ import (
 
 	"github.com/atomix/go-sdk/pkg/primitive"
 	configapi "github.com/onosproject/onos-api/go/onos/config/v2"
+	configv3 "github.com/onosproject/onos-api/go/onos/config/v3"
 	topoapi "github.com/onosproject/onos-api/go/onos/topo"
 	connctl "github.com/onosproject/onos-config/pkg/controller/connection"
 	targetctl "github.com/onosproject/onos-config/pkg/controller/target"
@@ -21,6 +22,9 @@ import (
 	mastctl "github.com/onosproject/onos-config/pkg/controller/v2/mastership"
 	propctl "github.com/onosproject/onos-config/pkg/controller/v2/proposal"
 	txctl "github.com/onosproject/onos-config/pkg/controller/v2/transaction"
+	cfgctl3 "github.com/onosproject/onos-config/pkg/controller/v3/configuration"
+	mastctl3 "github.com/onosproject/onos-config/pkg/controller/v3/mastership"
+	txctl3 "github.com/onosproject/onos-config/pkg/controller/v3/transaction"
 	nbadmin "github.com/onosproject/onos-config/pkg/northbound/admin"
 	nbgnmi "github.com/onosproject/onos-config/pkg/northbound/gnmi/v2"
 	"github.com/onosproject/onos-config/pkg/pluginregistry"
@@ -28,6 +32,8 @@ import (
 	cfgstore "github.com/onosproject/onos-config/pkg/store/v2/configuration"
 	propstore "github.com/onosproject/onos-config/pkg/store/v2/proposal"
 	txstore "github.com/onosproject/onos-config/pkg/store/v2/transaction"
+	cfgstore3 "github.com/onosproject/onos-config/pkg/store/v3/configuration"
+	txstore3 "github.com/onosproject/onos-config/pkg/store/v3/transaction"
 	"github.com/onosproject/onos-lib-go/pkg/controller"
 	"github.com/onosproject/onos-lib-go/pkg/logging"
 )
@@ -67,6 +73,7 @@ type WorldConfig struct {
 	Backend      primitive.Client // nil: simatomix
 	NoPlugin     map[string]bool  // targets whose model type has no plugin registered
 	Persistent   map[string]bool
+	V3           bool // the next-generation stack: v3 stores and the v3 transaction / configuration / mastership controllers
 }
 
 type watcherHandle struct {
@@ -89,6 +96,9 @@ type World struct {
 	txs   txstore.Store
 	props propstore.Store
 	cfgs  cfgstore.Store
+
+	txs3  txstore3.Store // V3 worlds
+	cfgs3 cfgstore3.Store
 
 	recs     map[string]controller.Reconciler
 	watchers []*watcherHandle
@@ -136,25 +146,35 @@ func NewWorld(cfg WorldConfig) *World {
 	w.reg = newRegistry(plugins...)
 
 	var err error
-	if w.txs, err = txstore.NewAtomixStore(w.backend); err != nil {
-		panic(err)
+	if cfg.V3 {
+		if w.txs3, err = txstore3.NewAtomixStore(w.backend); err != nil {
+			panic(err)
+		}
+		if w.cfgs3, err = cfgstore3.NewAtomixStore(w.backend); err != nil {
+			panic(err)
+		}
+		w.recs[cTx] = txctl3.NewReconcilerForVerif(configv3.NodeID(controllerutils.GetOnosConfigID()), w.txs3, w.cfgs3, w.conns, w.topo, w.reg)
+		w.recs[cCfg] = cfgctl3.NewReconcilerForVerif(w.topo, w.conns, w.cfgs3)
+		w.recs[cMast] = mastctl3.NewReconcilerForVerif(w.topo, w.cfgs3)
+	} else {
+		if w.txs, err = txstore.NewAtomixStore(w.backend); err != nil {
+			panic(err)
+		}
+		if w.props, err = propstore.NewAtomixStore(w.backend); err != nil {
+			panic(err)
+		}
+		if w.cfgs, err = cfgstore.NewAtomixStore(w.backend); err != nil {
+			panic(err)
+		}
+		w.recs[cTx] = txctl.NewReconcilerForVerif(w.txs, w.props)
+		w.recs[cProp] = propctl.NewReconcilerForVerif(w.topo, w.conns, w.props, w.cfgs, w.reg)
+		w.recs[cCfg] = cfgctl.NewReconcilerForVerif(w.topo, w.conns, w.cfgs)
+		w.recs[cMast] = mastctl.NewReconcilerForVerif(w.topo, w.cfgs)
+		w.gnmi = nbgnmi.NewServerForVerif(w.topo, w.txs, w.props, w.cfgs, w.reg, w.conns, cfg.SetSizeLimit)
+		w.admin = nbadmin.NewServerForVerif(w.txs, w.cfgs, w.reg)
 	}
-	if w.props, err = propstore.NewAtomixStore(w.backend); err != nil {
-		panic(err)
-	}
-	if w.cfgs, err = cfgstore.NewAtomixStore(w.backend); err != nil {
-		panic(err)
-	}
-
-	w.recs[cTx] = txctl.NewReconcilerForVerif(w.txs, w.props)
-	w.recs[cProp] = propctl.NewReconcilerForVerif(w.topo, w.conns, w.props, w.cfgs, w.reg)
-	w.recs[cCfg] = cfgctl.NewReconcilerForVerif(w.topo, w.conns, w.cfgs)
-	w.recs[cMast] = mastctl.NewReconcilerForVerif(w.topo, w.cfgs)
 	w.recs[cConn] = connctl.NewReconcilerForVerif(w.topo, w.conns)
 	w.recs[cTarget] = targetctl.NewReconcilerForVerif(w.topo, w.conns)
-
-	w.gnmi = nbgnmi.NewServerForVerif(w.topo, w.txs, w.props, w.cfgs, w.reg, w.conns, cfg.SetSizeLimit)
-	w.admin = nbadmin.NewServerForVerif(w.txs, w.cfgs, w.reg)
 
 	// topo: the onos-config node entity and one configurable entity per target
 	ctx := context.Background()
@@ -175,13 +195,49 @@ func NewWorld(cfg WorldConfig) *World {
 			panic(err)
 		}
 	}
+	if cfg.V3 {
+		// there is no v3 northbound in the repository: the configuration record of a target is created here, as
+		// whoever appends the first transaction would, with the mastership status present and nothing else
+		for _, t := range cfg.Targets {
+			c := &configv3.Configuration{ID: configv3.ConfigurationID{Target: w.v3Target(t)}}
+			c.Status.Mastership = &configv3.MastershipStatus{}
+			if err := w.cfgs3.Create(ctx, c); err != nil {
+				panic(err)
+			}
+		}
+		w.fuse.ResetEffects()
+	}
 	w.topo.effects = 0
 	w.startWatchers()
 	synctest.Wait()
 	return w
 }
 
+// v3Target is the v3 target triple of a target id.
+func (w *World) v3Target(t string) configv3.Target {
+	for i, x := range w.cfg.Targets {
+		if x == t {
+			return configv3.Target{ID: configv3.TargetID(t), Type: configv3.TargetType(targetType(i)), Version: targetVersion}
+		}
+	}
+	panic("unknown target " + t)
+}
+
 func (w *World) newWatchers() []*watcherHandle {
+	if w.cfg.V3 {
+		return []*watcherHandle{
+			{cTx, "tx.tx", txctl3.NewWatcherForVerif(w.txs3)},
+			{cTx, "tx.cfg", txctl3.NewConfigurationWatcherForVerif(w.cfgs3)},
+			{cCfg, "cfg.cfg", cfgctl3.NewWatcherForVerif(w.cfgs3)},
+			{cCfg, "cfg.topo", cfgctl3.NewTopoWatcherForVerif(w.topo)},
+			{cMast, "mast.topo", mastctl3.NewTopoWatcherForVerif(w.topo)},
+			{cMast, "mast.cfg", mastctl3.NewConfigurationStoreWatcherForVerif(w.cfgs3)},
+			{cConn, "conn.conn", connctl.NewConnWatcherForVerif(w.conns)},
+			{cConn, "conn.topo", connctl.NewTopoWatcherForVerif(w.topo)},
+			{cTarget, "target.topo", targetctl.NewTopoWatcherForVerif(w.topo)},
+			{cTarget, "target.conn", targetctl.NewConnWatcherForVerif(w.conns)},
+		}
+	}
 	return []*watcherHandle{
 		{cTx, "tx.tx", txctl.NewWatcherForVerif(w.txs)},
 		{cTx, "tx.prop", txctl.NewProposalWatcherForVerif(w.props)},
@@ -198,7 +254,15 @@ func (w *World) newWatchers() []*watcherHandle {
 	}
 }
 
-func idString(v interface{}) string { return fmt.Sprintf("%v", v) }
+func idString(v interface{}) string {
+	switch x := v.(type) {
+	case configv3.TransactionID:
+		return fmt.Sprintf("%s/%d", x.Target.ID, x.Index)
+	case configv3.ConfigurationID:
+		return string(x.Target.ID)
+	}
+	return fmt.Sprintf("%v", v)
+}
 
 func (w *World) startWatchers() {
 	w.watchers = w.newWatchers()
@@ -236,6 +300,17 @@ func (w *World) TakeTokens() []Token {
 }
 
 func (w *World) controllerID(ctrl, id string) controller.ID {
+	if w.cfg.V3 {
+		switch ctrl {
+		case cTx:
+			i := strings.LastIndex(id, "/")
+			var n uint64
+			fmt.Sscan(id[i+1:], &n)
+			return controller.NewID(configv3.TransactionID{Target: w.v3Target(id[:i]), Index: configv3.Index(n)})
+		case cCfg, cMast:
+			return controller.NewID(configv3.ConfigurationID{Target: w.v3Target(id)})
+		}
+	}
 	switch ctrl {
 	case cTx:
 		var i uint64
@@ -255,15 +330,16 @@ func (w *World) controllerID(ctrl, id string) controller.ID {
 
 // StepResult is what one atomic reconcile step did.
 type StepResult struct {
-	Effects  int      // external effects (store writes, topo writes, device Sets that were processed)
-	Writes   []string // their descriptions, in order
-	Tokens   []Token  // tokens produced: watcher deliveries, the Requeue result, a retry after an error
-	Err      string
-	Panic    string
-	DevLog   map[string][]devReq
-	Docs     map[string][]pluginDoc
-	Crashed  bool
-	Requeued bool
+	Effects   int      // external effects (store writes, topo writes, device Sets that were processed)
+	Writes    []string // their descriptions, in order
+	Tokens    []Token  // tokens produced: watcher deliveries, the Requeue result, a retry after an error
+	Err       string
+	Panic     string
+	DevLog    map[string][]devReq
+	Docs      map[string][]pluginDoc
+	Crashed   bool
+	Requeued  bool
+	Conflicts int // interleaved steps: store writes refused with a version conflict
 }
 
 // Step runs one real Reconcile call to completion and lets every event it caused be delivered.
@@ -309,6 +385,81 @@ func (w *World) Step(ctrl, id string) StepResult {
 		}
 	}
 	return res
+}
+
+// reconcileOnce runs one Reconcile call on the calling goroutine (panics are contained).
+func (w *World) reconcileOnce(ctrl, id string) (res StepResult) {
+	defer func() {
+		if r := recover(); r != nil {
+			res.Panic = notePanic(r)
+		}
+	}()
+	result, err := w.recs[ctrl].Reconcile(w.controllerID(ctrl, id))
+	if err != nil {
+		res.Err = err.Error()
+		res.Tokens = append(res.Tokens, Token{Ctrl: ctrl, ID: id, Src: "retry"})
+	} else if result.Requeue.Value != nil {
+		res.Requeued = true
+		res.Tokens = append(res.Tokens, Token{Ctrl: ctrl, ID: idString(result.Requeue.Value), Src: "requeue"})
+	}
+	return res
+}
+
+// StepInterleaved runs Reconcile(ctrl, id) on its own goroutine, holds it when its (k+1)-th store write reaches
+// simatomix (before the write is executed), runs other() to completion, and lets the held call finish. reached is
+// false when the call makes fewer than k+1 store writes (nothing was interleaved then).
+func (w *World) StepInterleaved(ctrl, id string, k int, other func()) (res StepResult, reached bool) {
+	w.fuse.ResetEffects()
+	paused, resume, done := make(chan struct{}), make(chan struct{}), make(chan struct{})
+	var mu sync.Mutex
+	n, hit := 0, false
+	conflictsBefore := w.atomix.conflicts
+	w.atomix.writeGate = func() {
+		mu.Lock()
+		if n == k && !hit {
+			hit = true
+			mu.Unlock()
+			close(paused)
+			<-resume
+			return
+		}
+		n++
+		mu.Unlock()
+	}
+	go func() {
+		defer close(done)
+		res = w.reconcileOnce(ctrl, id)
+	}()
+	synctest.Wait()
+	mu.Lock()
+	reached = hit
+	mu.Unlock()
+	if reached {
+		other()
+		synctest.Wait()
+		close(resume)
+	}
+	<-done
+	w.atomix.writeGate = nil
+	synctest.Wait()
+	w.ReapCalls()
+	res.Conflicts = w.atomix.conflicts - conflictsBefore
+	res.Effects, res.Writes = w.fuse.ResetEffects()
+	res.Crashed = w.fuse.Crashed()
+	res.Tokens = append(w.TakeTokens(), res.Tokens...)
+	res.DevLog = map[string][]devReq{}
+	for t, d := range w.devices {
+		if l := d.TakeLog(); len(l) > 0 {
+			res.DevLog[t] = l
+		}
+	}
+	res.Docs = map[string][]pluginDoc{}
+	for t, p := range w.plugins {
+		if d := p.TakeDocs(); len(d) > 0 {
+			res.Docs[t] = d
+		}
+	}
+	return res, reached
 }
 
 // Settle waits for quiescence and returns the tokens that arrived (used after environment events and requests).
